@@ -1,11 +1,16 @@
 ------------------------------ MODULE MC_Login ------------------------------
 EXTENDS Login
 ASSUME EmitVocab
-O(pr, es, pk, sn, idn) == [perReq |-> pr, encodeState |-> es, pkce |-> pk, skipNonce |-> sn, idpNonce |-> idn]
+\* advertise: the code_challenge_methods_supported list of the IdP's discovery document (both | plain | s256 | absent); whatever it says,
+\* the configured method is the one every authorization request must carry
+O2(pr, es, pk, sn, idn, advm) == [perReq |-> pr, encodeState |-> es, pkce |-> pk, skipNonce |-> sn, idpNonce |-> idn, advertise |-> advm]
+O(pr, es, pk, sn, idn) == O2(pr, es, pk, sn, idn, "both")
 QuickOptions == { O(TRUE, FALSE, "S256", FALSE, "echo"), O(FALSE, TRUE, "none", FALSE, "echo"),
                   O(TRUE, TRUE, "none", TRUE, "echo"), O(FALSE, FALSE, "plain", FALSE, "echo"),
                   O(TRUE, FALSE, "none", FALSE, "other"), O(FALSE, FALSE, "S256", FALSE, "absent"),
-                  O(TRUE, FALSE, "none", FALSE, "empty"), O(TRUE, FALSE, "none", FALSE, "raw"), O(FALSE, FALSE, "none", TRUE, "absent") }
+                  O(TRUE, FALSE, "none", FALSE, "empty"), O(TRUE, FALSE, "none", FALSE, "raw"), O(FALSE, FALSE, "none", TRUE, "absent"),
+                  O2(FALSE, FALSE, "S256", FALSE, "echo", "plain"), O2(TRUE, FALSE, "plain", FALSE, "echo", "s256"), O2(FALSE, TRUE, "S256", FALSE, "echo", "absent") }
 AllOptions == [perReq : BOOLEAN, encodeState : BOOLEAN, pkce : {"none", "S256", "plain"}, skipNonce : BOOLEAN,
-               idpNonce : {"echo", "other", "empty", "absent", "raw"}]
+               idpNonce : {"echo", "other", "empty", "absent", "raw"}, advertise : {"both"}]
+              \cup { O2(pr, FALSE, pk, FALSE, "echo", advm) : pr \in BOOLEAN, pk \in {"S256", "plain"}, advm \in {"plain", "s256", "absent"} }
 =============================================================================
